@@ -455,4 +455,62 @@ theorem consume_sim (F : Frame inpS inpW δ) (hops : OpsSim env.ops inpS inpW δ
 
 end
 
+section
+variable {env : Env κ} {inpS inpW : Bytes} {δ : Nat} {K : Nat → κ → κ → Prop}
+
+/-- **The step lemma.** One state-function invocation from related machines: either both runs make the
+same step, or — only if the split input ends before the whole input — the split run breaks and its
+re-based machine is related, in the frame `δ + consumed`, to the whole machine `mw0` that has at most
+run its enter actions (`stateFn mw0 = stateFn mw`). -/
+theorem stateFn_sim (F : Frame inpS inpW δ) (hops : OpsSim env.ops inpS inpW δ K) {fs : FlagMap}
+    (hwf : WfChunkWith env.tbl fs = true) {d skip : Nat} {ms mw : M κ}
+    (hb : BRel env.tbl fs inpW δ d skip ms mw) (hK : K d ms.x.sink mw.x.sink)
+    (hil : ms.c.isLast = true → Closed inpS inpW δ) :
+    LockOut env.tbl fs inpW δ K (stateFn env inpS ms) (stateFn env inpW mw) ∨
+    (¬ Closed inpS inpW δ ∧ ∃ (x0 : Ctx κ) (mw0 : M κ),
+      stateFn env inpW mw0 = stateFn env inpW mw ∧ K d x0.sink mw0.x.sink ∧ mw0.x.sim = x0.sim ∧
+      x0.prevConsumed = mw0.x.prevConsumed + δ ∧
+      BreakOut env.tbl fs env.ops inpS inpW δ d x0 mw0 (stateFn env inpS ms)) := by
+  obtain ⟨⟨sm, hbr, hside⟩, hpc⟩ := hb
+  have hrel0 : MRel δ d skip (flagsOf env.tbl fs ms.c) sm ms mw := hbr.toMRel hpc
+  rw [stateFn_eq env inpS ms, stateFn_eq env inpW mw, hrel0.c.state]
+  cases hlook : env.tbl.state? ms.c.state with
+  | none => exact Or.inl (Or.inl trivial)
+  | some sd =>
+    simp only
+    obtain ⟨hs1, hs2, hs3⟩ := hside sd hlook
+    have hfl : flagsOf env.tbl fs ms.c = flagsAt fs sd ms.c.state ms.c.entered := by
+      unfold flagsOf; rw [hlook]
+    rw [hfl] at hrel0
+    rcases pre_sim F hops hlook hwf rfl hrel0 hK hs1 hs2 (fun h => (hs3 h).choose_spec.2.1) with hp | ⟨sg, sg', h1, h2, h3⟩ | ⟨h1, h2, hrel, hK', cx, hnp, hlast, hnpw, hidem⟩
+    · left; left
+      revert hp
+      cases (preOf env inpS sd ms).2 with
+      | none => intro hp; exact hp.elim
+      | some sg => intro hp; exact hp
+    · left; right
+      rw [h1, h2]
+      simp only
+      cases sg <;> cases sg' <;> first | exact h3 | exact h3.elim
+    · rw [h1, h2]
+      simp only
+      have hsm' : sm = .none ∨ (sm = .stale ∧ hasSeq sd = true) := by
+        rcases hs1 with h | ⟨h, h', _⟩
+        · exact Or.inl h
+        · exact Or.inr ⟨h, h'⟩
+      have hskip' : 0 < skip → ∃ nd, sd.memchr = some nd ∧ SkipOk nd inpW (preOf env inpW sd mw).1.c.nextPos skip := by
+        intro h
+        obtain ⟨nd, a, _, b⟩ := hs3 h
+        exact ⟨nd, a, by rw [hnpw]; exact b⟩
+      rcases consume_sim F hops cx hrel hK' hsm' hs2 hskip' (by rw [hlast]; exact hil) with hl | ⟨hncl, hbo⟩
+      · exact Or.inl hl
+      · refine Or.inr ⟨hncl, (preOf env inpS sd ms).1.x, (preOf env inpW sd mw).1, ?_, hK', hrel.sim, hrel.pc, hbo⟩
+        rw [stateFn_eq env inpW (preOf env inpW sd mw).1]
+        have hstw : (preOf env inpW sd mw).1.c.state = ms.c.state := by
+          rw [hrel.c.state, cx.st_eq]
+        rw [hstw, hlook]
+        simp only [hidem]
+
+end
+
 end LolHtml.Model.Chunk
